@@ -207,6 +207,16 @@ def run_case(case, seed):
                 ok3, parts2 = call(lambda: q.split_quat_channels(q.stack_quat_channels(base[..., 0], base[..., 1], base[..., 2], base[..., 0] * 2)))
                 if not ok3 or not all(np.array_equal(a, b) for a, b in zip(parts2, (base[..., 0], base[..., 1], base[..., 2], base[..., 0] * 2))):
                     fails.append(fail("stack_split_identity", f"{vcls}", **tags))
+                # every selection of four planes out of the channel VIEWS of one owner buffer (all 4^4 index tuples: permuted, repeated),
+                # taken from split() and directly as Q[..., c]: stack places plane t in channel t whatever its provenance
+                if ok and vcls in ("byte", "neg"):
+                    for src, views in (("split", parts), ("owner_views", tuple(Q[..., c] for c in range(4)))):
+                        for tup in itertools.product(range(4), repeat=4):
+                            okp, stp = call(q.stack_quat_channels, *[views[c] for c in tup])
+                            evals += 1
+                            if not okp or not np.array_equal(stp, np.stack([Q[..., c] for c in tup], axis=-1)):
+                                fails.append(fail("stack_places_planes_in_order", f"planes {tup} ({src}) of one {H}x{W}x4 buffer", planes=src, **tags))
+                                break
         # channel planes of mixed dtype: stack must use the common result type, split(stack(.)) returns the planes
         for nm, dts in (("int_real_plane", (np.int64, float, float, float)), ("f32_real_plane", (np.float32, float, float, float)),
                         ("uint8_mask_real", (np.uint8, float, float, float)), ("f32_colour", (float, np.float32, float, float))):
@@ -289,6 +299,35 @@ def run_case(case, seed):
                                 expect = 10.0 * math.log10(float(dr) ** 2 / mse)
                                 if abs(pd - expect) > 1e-6 * max(1.0, abs(expect)):
                                     fails.append(fail("psnr_value", f"{np.dtype(dt).name} {nm} data_range={dname} ({form}): psnr={pd!r}, definition {expect!r}", **tags))
+        # low-precision float images whose difference (or its square) is not representable in the input precision: the metric is defined
+        # on the values, so unequal images have a finite PSNR equal to the float64 definition
+        for dt, tiny in ((np.float32, 1e-25), (np.float32, 1e-30), (np.float16, 6e-8), (np.float64, 1e-120)):
+            for H, W in ((1, 1), (2, 3), (4, 4)):
+                base = ((np.arange(H * W * 3).reshape(H, W, 3) * 37 % 64) / 256.0).astype(dt)
+                base[0, 0, 0] = 0
+                vars_ = {"equal": base.copy()}
+                y = base.copy(); y[0, 0, 0] = dt(tiny); vars_["tiny_pixel"] = y
+                y = base.copy(); y[-1, -1, -1] = np.nextafter(y[-1, -1, -1], dt(1)); vars_["one_ulp"] = y
+                y = base.copy(); y[0, 0, 0] = np.nextafter(dt(0), dt(1)); vars_["smallest_subnormal"] = y
+                for nm, y in vars_.items():
+                    eq = bool(np.array_equal(base, y))
+                    tags = {"grp": "metrics", "pair": nm, "dtype": np.dtype(dt).name}
+                    for dname, kw in (("default", {}), ("1.0", {"data_range": 1.0})):
+                        ok, pv = call(q.psnr, y, base, **kw)
+                        evals += 1
+                        if not ok:
+                            fails.append(fail("metric_raised", f"{np.dtype(dt).name} {nm}: {pv}", **tags))
+                            continue
+                        mse = float(np.mean((y.astype(np.float64) - base.astype(np.float64)) ** 2))
+                        if mse == 0.0 and not eq:
+                            continue  # the squared difference underflows in float64 itself: nothing to decide
+                        if (pv == float("inf")) != eq:
+                            fails.append(fail("psnr_inf_iff_equal", f"{np.dtype(dt).name} {nm} data_range={dname}: psnr={pv} equal={eq}", **tags))
+                        elif not eq:
+                            rng_ = 1.0 if kw else (float(base.max()) - float(base.min()) or 1.0)
+                            expect = 10.0 * math.log10(rng_ ** 2 / mse)
+                            if abs(pv - expect) > 1e-6 * max(1.0, abs(expect)):
+                                fails.append(fail("psnr_value", f"{np.dtype(dt).name} {nm} data_range={dname}: psnr={pv!r}, definition {expect!r}", **tags))
     else:
         q = lib.qslst
         H, W, snr = case["H"], case["W"], case["snr"]
